@@ -58,6 +58,7 @@ theorem C07_model_reads_stored_entry (cfg : EdCfg) (i : Nat) : histGet cfg i = c
     cursor at its end, index `i` (proved below as `C07_model_prev`). -/
 def C07_model_prev_statement : Prop :=
   ∀ (S : Segmenter) (U : UData) (cfg : EdCfg) (s s' : Ed) (e : Text),
+    cfg.histRows = none →
     0 < s.histIdx → s.histIdx ≤ cfg.hist.length → cfg.hist[s.histIdx - 1]? = some e → s.line.canGrow = true →
     editHistoryNext S U cfg true s = .ok ((), s') →
     s'.line.buf = e ∧ s'.line.pos = blen e ∧ s'.histIdx = s.histIdx - 1
@@ -75,14 +76,287 @@ deriving DecidableEq
 
 def navOf (s : Ed) : Nav := ⟨s.line.buf, s.line.pos, s.histIdx, s.saved.buf, s.saved.pos⟩
 
-/-- what the model needs to navigate without panicking: growable buffers (true of the editor's two
-    buffers), cursors inside their texts, index within the history -/
 structure NavOK (cfg : EdCfg) (s : Ed) : Prop where
   lineGrow : s.line.canGrow = true
   savedGrow : s.saved.canGrow = true
   linePos : s.line.pos ≤ blen s.line.buf
   savedPos : s.saved.pos ≤ blen s.saved.buf
-  idx : s.histIdx ≤ cfg.hist.length
+  idx : s.histIdx ≤ histLen cfg
+
+/-- a history back end as the recall commands see it: `History::len()` and `History::get(i, dir)` -/
+structure HStore where
+  len : Nat
+  get : Nat → Dir → Option (Nat × Text)
+
+def storeOf (cfg : EdCfg) : HStore := ⟨histLen cfg, histGetDir cfg⟩
+
+/-- the answers of `get` are indices below `len` (true of both back ends, `C07_storeOK_*`) -/
+def StoreOK (H : HStore) : Prop := ∀ i d j e, H.get i d = some (j, e) → j < H.len
+
+/-- leaving the in-progress position saves (text, cursor) -/
+def navSave (H : HStore) (n : Nav) : Nav :=
+  if n.idx = H.len then { n with savedBuf := n.buf, savedPos := n.pos } else n
+
+/-- declarative "previous entry" over any back end: the nearest entry at or before `idx - 1` -/
+def navPrevS (H : HStore) (n : Nav) : Nav :=
+  if H.len = 0 then n
+  else if n.idx = 0 then n
+  else if n.idx - 1 < H.len then
+    match H.get (n.idx - 1) .reverse with
+    | some (j, e) => { navSave H n with buf := e, pos := blen e, idx := j }
+    | none => navSave H n
+  else { navSave H n with buf := (navSave H n).savedBuf, pos := (navSave H n).savedPos }
+
+/-- declarative "next entry": the nearest entry at or after `idx + 1`, or the saved line -/
+def navNextS (H : HStore) (n : Nav) : Nav :=
+  if H.len = 0 ∨ n.idx = H.len then n
+  else if n.idx + 1 < H.len then
+    match H.get (n.idx + 1) .forward with
+    | some (j, e) => { n with buf := e, pos := blen e, idx := j }
+    | none => { n with idx := n.idx + 1 }
+  else { n with buf := n.savedBuf, pos := n.savedPos, idx := n.idx + 1 }
+
+def navFirstS (H : HStore) (n : Nav) : Nav :=
+  if H.len = 0 then n
+  else if n.idx = 0 then n
+  else match H.get 0 .forward with
+    | some (j, e) => if j = n.idx then navSave H n else { navSave H n with buf := e, pos := blen e, idx := j }
+    | none => navSave H n
+
+def navLastS (H : HStore) (n : Nav) : Nav :=
+  if H.len = 0 ∨ n.idx = H.len then n
+  else { n with buf := n.savedBuf, pos := n.savedPos, idx := H.len }
+
+section
+variable (S : Segmenter) (U : UData) (cfg : EdCfg)
+
+theorem C07_prev_specS (hnp : cfg.hinterPanicAt = none) (hst : StoreOK (storeOf cfg)) (s : Ed)
+    (h : NavOK cfg s) :
+    wp (editHistoryNext S U cfg true)
+      (fun _ s' => navOf s' = navPrevS (storeOf cfg) (navOf s) ∧ NavOK cfg s' ∧ s'.ring = s.ring)
+      (fun _ _ => False) s := by
+  obtain ⟨h1, h2, h3, h4, h5⟩ := h
+  unfold editHistoryNext
+  simp only [wp_bind, wp_ite, wp_pure, wp_getHistIdx, wp_setHistIdx, if_true]
+  by_cases hlen : histLen cfg = 0
+  · simp [hlen, navPrevS, storeOf]
+    exact ⟨h1, h2, h3, h4, h5⟩
+  · have hl0 : (histLen cfg == 0) = false := by simp [hlen]
+    simp only [hl0, Bool.false_eq_true, if_false]
+    by_cases hend : s.histIdx = histLen cfg
+    · have he : (s.histIdx == histLen cfg) = true := by simp [hend]
+      simp only [he, if_true]
+      refine wp_backup S U h2 h3 ?_
+      have hlt : s.histIdx - 1 < histLen cfg := by omega
+      have hne : s.histIdx ≠ 0 := by omega
+      simp only [hlt, if_true]
+      cases hg : histGetDir cfg (s.histIdx - 1) Dir.reverse with
+      | none =>
+        have hg' := hg
+        rw [hend] at hg'
+        simp only [wp_pure]
+        refine ⟨?_, ⟨h1, h2, h3, h3, h5⟩, trivial⟩
+        have hlt' : histLen cfg - 1 < histLen cfg := by omega
+        simp [navOf, navPrevS, storeOf, navSave, hlen, hg', hend, LB.updated, hlt']
+      | some p =>
+        obtain ⟨j, e⟩ := p
+        have hg' := hg
+        rw [hend] at hg'
+        simp only [wp_bind, wp_setHistIdx]
+        refine wp_showEntry S U h1 (Nat.le_refl _) ?_
+        refine wp_refreshLine_np S U cfg hnp fun s' hc => ?_
+        obtain ⟨c1, c2, _, c4, c5, _, _⟩ := Ed.core_eq hc
+        refine ⟨?_, ⟨?_, ?_, ?_, ?_, ?_⟩, c4⟩
+        · have hlt' : histLen cfg - 1 < histLen cfg := by omega
+          simp [navOf, navPrevS, storeOf, navSave, hlen, hg', hend, c1, c2, c5, LB.updated, hlt']
+        · rw [c1]; exact h1
+        · rw [c2]; exact h2
+        · rw [c1]; exact Nat.le_refl _
+        · rw [c2]; exact h3
+        · rw [c5]; exact Nat.le_of_lt (hst (s.histIdx - 1) .reverse j e hg)
+    · have he : (s.histIdx == histLen cfg) = false := by simp [hend]
+      simp only [he, Bool.false_eq_true, if_false]
+      by_cases h0 : s.histIdx = 0
+      · simp [h0, navPrevS, navOf, storeOf, hlen]
+        exact ⟨h1, h2, h3, h4, by omega⟩
+      · have h0' : (s.histIdx == 0 && true) = false := by simp [h0]
+        simp only [h0', Bool.false_eq_true, if_false]
+        have hlt : s.histIdx - 1 < histLen cfg := by omega
+        simp only [hlt, if_true]
+        cases hg : histGetDir cfg (s.histIdx - 1) Dir.reverse with
+        | none =>
+          simp only [wp_pure]
+          refine ⟨?_, ⟨h1, h2, h3, h4, h5⟩, trivial⟩
+          simp [navOf, navPrevS, storeOf, navSave, hlen, h0, hlt, hg, hend]
+        | some p =>
+          obtain ⟨j, e⟩ := p
+          simp only [wp_bind, wp_setHistIdx]
+          refine wp_showEntry S U h1 (Nat.le_refl _) ?_
+          refine wp_refreshLine_np S U cfg hnp fun s' hc => ?_
+          obtain ⟨c1, c2, _, c4, c5, _, _⟩ := Ed.core_eq hc
+          refine ⟨?_, ⟨?_, ?_, ?_, ?_, ?_⟩, c4⟩
+          · simp [navOf, navPrevS, storeOf, navSave, hlen, h0, hlt, hg, hend, c1, c2, c5, LB.updated]
+          · rw [c1]; exact h1
+          · rw [c2]; exact h2
+          · rw [c1]; exact Nat.le_refl _
+          · rw [c2]; exact h4
+          · rw [c5]; exact Nat.le_of_lt (hst (s.histIdx - 1) .reverse j e hg)
+
+theorem C07_next_specS (hnp : cfg.hinterPanicAt = none) (hst : StoreOK (storeOf cfg)) (s : Ed)
+    (h : NavOK cfg s) :
+    wp (editHistoryNext S U cfg false)
+      (fun _ s' => navOf s' = navNextS (storeOf cfg) (navOf s) ∧ NavOK cfg s' ∧ s'.ring = s.ring)
+      (fun _ _ => False) s := by
+  obtain ⟨h1, h2, h3, h4, h5⟩ := h
+  unfold editHistoryNext
+  simp only [wp_bind, wp_ite, wp_pure, wp_getHistIdx, wp_setHistIdx, Bool.false_eq_true, if_false, Bool.and_false]
+  by_cases hlen : histLen cfg = 0
+  · simp [hlen, navNextS, storeOf]
+    exact ⟨h1, h2, h3, h4, h5⟩
+  · have hl0 : (histLen cfg == 0) = false := by simp [hlen]
+    simp only [hl0, Bool.false_eq_true, if_false]
+    by_cases hend : s.histIdx = histLen cfg
+    · have he : (s.histIdx == histLen cfg) = true := by simp [hend]
+      simp only [he, if_true]
+      refine ⟨?_, ⟨h1, h2, h3, h4, h5⟩, trivial⟩
+      simp [navNextS, navOf, storeOf, hend]
+    · have he : (s.histIdx == histLen cfg) = false := by simp [hend]
+      simp only [he, Bool.false_eq_true, if_false]
+      by_cases hlt : s.histIdx + 1 < histLen cfg
+      · simp only [hlt, if_true]
+        cases hg : histGetDir cfg (s.histIdx + 1) Dir.forward with
+        | none =>
+          simp only [wp_pure]
+          refine ⟨?_, ⟨h1, h2, h3, h4, Nat.le_of_lt hlt⟩, trivial⟩
+          simp [navOf, navNextS, storeOf, hlen, hend, hlt, hg]
+        | some p =>
+          obtain ⟨j, e⟩ := p
+          simp only [wp_bind, wp_setHistIdx]
+          refine wp_showEntry S U h1 (Nat.le_refl _) ?_
+          refine wp_refreshLine_np S U cfg hnp fun s' hc => ?_
+          obtain ⟨c1, c2, _, c4, c5, _, _⟩ := Ed.core_eq hc
+          refine ⟨?_, ⟨?_, ?_, ?_, ?_, ?_⟩, c4⟩
+          · simp [navOf, navNextS, storeOf, hlen, hend, hlt, hg, c1, c2, c5, LB.updated]
+          · rw [c1]; exact h1
+          · rw [c2]; exact h2
+          · rw [c1]; exact Nat.le_refl _
+          · rw [c2]; exact h4
+          · rw [c5]; exact Nat.le_of_lt (hst (s.histIdx + 1) .forward j e hg)
+      · simp only [hlt, if_false]
+        refine wp_restore S U h1 h4 ?_
+        refine wp_refreshLine_np S U cfg hnp fun s' hc => ?_
+        obtain ⟨c1, c2, _, c4, c5, _, _⟩ := Ed.core_eq hc
+        refine ⟨?_, ⟨?_, ?_, ?_, ?_, ?_⟩, c4⟩
+        · simp [navOf, navNextS, storeOf, hlen, hend, hlt, c1, c2, c5, LB.updated]
+        · rw [c1]; exact h1
+        · rw [c2]; exact h2
+        · rw [c1]; exact h4
+        · rw [c2]; exact h4
+        · rw [c5]; simp only []; omega
+
+theorem C07_first_specS (hnp : cfg.hinterPanicAt = none) (hst : StoreOK (storeOf cfg)) (s : Ed)
+    (h : NavOK cfg s) :
+    wp (editHistory S U cfg true)
+      (fun _ s' => navOf s' = navFirstS (storeOf cfg) (navOf s) ∧ NavOK cfg s' ∧ s'.ring = s.ring)
+      (fun _ _ => False) s := by
+  obtain ⟨h1, h2, h3, h4, h5⟩ := h
+  unfold editHistory
+  simp only [wp_bind, wp_ite, wp_pure, wp_getHistIdx, wp_setHistIdx, if_true]
+  by_cases hlen : histLen cfg = 0
+  · simp [hlen, navFirstS, storeOf]
+    exact ⟨h1, h2, h3, h4, h5⟩
+  · have hl0 : (histLen cfg == 0) = false := by simp [hlen]
+    simp only [hl0, Bool.false_eq_true, if_false]
+    by_cases hend : s.histIdx = histLen cfg
+    · have he : (s.histIdx == histLen cfg) = true := by simp [hend]
+      have hne : histLen cfg ≠ 0 := hlen
+      simp only [he, if_true]
+      refine wp_backup S U h2 h3 ?_
+      cases hg : histGetDir cfg 0 Dir.forward with
+      | none =>
+        simp only [wp_pure]
+        refine ⟨?_, ⟨h1, h2, h3, h3, h5⟩, trivial⟩
+        simp [navOf, navFirstS, storeOf, navSave, hlen, hg, hend, LB.updated]
+      | some p =>
+        obtain ⟨j, e⟩ := p
+        have hj := hst 0 .forward j e hg
+        have hjne : ¬ j = histLen cfg := by simp only [storeOf] at hj; omega
+        have hjne' : (j == s.histIdx) = false := by simp [hend]; omega
+        simp only [hjne', Bool.false_eq_true, if_false, wp_bind, wp_setHistIdx]
+        refine wp_showEntry S U h1 (Nat.le_refl _) ?_
+        refine wp_refreshLine_np S U cfg hnp fun s' hc => ?_
+        obtain ⟨c1, c2, _, c4, c5, _, _⟩ := Ed.core_eq hc
+        refine ⟨?_, ⟨?_, ?_, ?_, ?_, ?_⟩, c4⟩
+        · simp [navOf, navFirstS, storeOf, navSave, hlen, hg, hend, hjne, c1, c2, c5, LB.updated]
+        · rw [c1]; exact h1
+        · rw [c2]; exact h2
+        · rw [c1]; exact Nat.le_refl _
+        · rw [c2]; exact h3
+        · rw [c5]; exact Nat.le_of_lt hj
+    · have he : (s.histIdx == histLen cfg) = false := by simp [hend]
+      simp only [he, Bool.false_eq_true, if_false]
+      by_cases h0 : s.histIdx = 0
+      · simp [h0, navFirstS, navOf, storeOf, hlen]
+        exact ⟨h1, h2, h3, h4, by omega⟩
+      · have h0' : (s.histIdx == 0 && true) = false := by simp [h0]
+        simp only [h0', Bool.false_eq_true, if_false]
+        cases hg : histGetDir cfg 0 Dir.forward with
+        | none =>
+          simp only [wp_pure]
+          refine ⟨?_, ⟨h1, h2, h3, h4, h5⟩, trivial⟩
+          simp [navOf, navFirstS, storeOf, navSave, hlen, h0, hg, hend]
+        | some p =>
+          obtain ⟨j, e⟩ := p
+          by_cases hj : j = s.histIdx
+          · have hj' : (j == s.histIdx) = true := by simp [hj]
+            simp only [hj', if_true, wp_pure]
+            refine ⟨?_, ⟨h1, h2, h3, h4, h5⟩, trivial⟩
+            simp [navOf, navFirstS, storeOf, navSave, hlen, h0, hg, hend, hj]
+          · have hj' : (j == s.histIdx) = false := by simp [hj]
+            simp only [hj', Bool.false_eq_true, if_false, wp_bind, wp_setHistIdx]
+            refine wp_showEntry S U h1 (Nat.le_refl _) ?_
+            refine wp_refreshLine_np S U cfg hnp fun s' hc => ?_
+            obtain ⟨c1, c2, _, c4, c5, _, _⟩ := Ed.core_eq hc
+            refine ⟨?_, ⟨?_, ?_, ?_, ?_, ?_⟩, c4⟩
+            · simp [navOf, navFirstS, storeOf, navSave, hlen, h0, hg, hend, hj, c1, c2, c5, LB.updated]
+            · rw [c1]; exact h1
+            · rw [c2]; exact h2
+            · rw [c1]; exact Nat.le_refl _
+            · rw [c2]; exact h4
+            · rw [c5]; exact Nat.le_of_lt (hst 0 .forward j e hg)
+
+theorem C07_last_specS (hnp : cfg.hinterPanicAt = none) (s : Ed) (h : NavOK cfg s) :
+    wp (editHistory S U cfg false)
+      (fun _ s' => navOf s' = navLastS (storeOf cfg) (navOf s) ∧ NavOK cfg s' ∧ s'.ring = s.ring)
+      (fun _ _ => False) s := by
+  obtain ⟨h1, h2, h3, h4, h5⟩ := h
+  unfold editHistory
+  simp only [wp_bind, wp_ite, wp_pure, wp_getHistIdx, wp_setHistIdx, Bool.false_eq_true, if_false, Bool.and_false]
+  by_cases hlen : histLen cfg = 0
+  · simp [hlen, navLastS, storeOf]
+    exact ⟨h1, h2, h3, h4, h5⟩
+  · have hl0 : (histLen cfg == 0) = false := by simp [hlen]
+    simp only [hl0, Bool.false_eq_true, if_false]
+    by_cases hend : s.histIdx = histLen cfg
+    · have he : (s.histIdx == histLen cfg) = true := by simp [hend]
+      simp only [he, if_true]
+      refine ⟨?_, ⟨h1, h2, h3, h4, h5⟩, trivial⟩
+      simp [navLastS, navOf, storeOf, hend]
+    · have he : (s.histIdx == histLen cfg) = false := by simp [hend]
+      simp only [he, Bool.false_eq_true, if_false]
+      refine wp_restore S U h1 h4 ?_
+      refine wp_refreshLine_np S U cfg hnp fun s' hc => ?_
+      obtain ⟨c1, c2, _, c4, c5, _, _⟩ := Ed.core_eq hc
+      refine ⟨?_, ⟨?_, ?_, ?_, ?_, ?_⟩, c4⟩
+      · simp [navOf, navLastS, storeOf, hlen, hend, c1, c2, c5, LB.updated]
+      · rw [c1]; exact h1
+      · rw [c2]; exact h2
+      · rw [c1]; exact h4
+      · rw [c2]; exact h4
+      · rw [c5]; exact Nat.le_refl _
+end
+
+/-! ### the declarative machine of the default back end (index = position) -/
 
 /-- declarative "previous entry" -/
 def navPrev (hist : List Text) (n : Nav) : Nav :=
@@ -101,118 +375,6 @@ def navNext (hist : List Text) (n : Nav) : Nav :=
     | some e => { n with buf := e, pos := blen e, idx := n.idx + 1 }
     | none => { n with buf := n.savedBuf, pos := n.savedPos, idx := hist.length }
 
-theorem C07_prev_spec (S : Segmenter) (U : UData) (cfg : EdCfg) (hnp : cfg.hinterPanicAt = none) (s : Ed)
-    (h : NavOK cfg s) :
-    wp (editHistoryNext S U cfg true)
-      (fun _ s' => navOf s' = navPrev cfg.hist (navOf s) ∧ NavOK cfg s' ∧ s'.ring = s.ring)
-      (fun _ _ => False) s := by
-  obtain ⟨h1, h2, h3, h4, h5⟩ := h
-  unfold editHistoryNext
-  simp only [wp_bind, wp_ite, wp_pure, wp_getHistIdx, wp_setHistIdx, if_true]
-  by_cases hlen : cfg.hist.length = 0
-  · have : s.histIdx = 0 := by omega
-    simp [hlen, navPrev, navOf, this]
-    exact ⟨h1, h2, h3, h4, by omega⟩
-  · have hl0 : (cfg.hist.length == 0) = false := by simp [hlen]
-    simp only [hl0, Bool.false_eq_true, if_false]
-    by_cases hend : s.histIdx = cfg.hist.length
-    · have he : (s.histIdx == cfg.hist.length) = true := by simp [hend]
-      simp only [he, if_true]
-      refine wp_backup S U h2 h3 ?_
-      have hlt : s.histIdx - 1 < cfg.hist.length := by omega
-      simp only [hlt, if_true]
-      obtain ⟨e, hge⟩ : ∃ e, cfg.hist[s.histIdx - 1]? = some e := by
-        exact ⟨cfg.hist[s.histIdx - 1], by simp [hlt]⟩
-      simp only [histGet, hge, wp_bind, wp_setHistIdx]
-      refine wp_showEntry S U h1 (Nat.le_refl _) ?_
-      refine wp_refreshLine_np S U cfg hnp fun s' hc => ?_
-      obtain ⟨c1, c2, _, c4, c5, _, _⟩ := Ed.core_eq hc
-      have hne : s.histIdx ≠ 0 := by omega
-      refine ⟨?_, ⟨?_, ?_, ?_, ?_, ?_⟩, c4⟩
-      · have hnil : cfg.hist ≠ [] := by intro h; simp [h] at hlen
-        have hge' := hge
-        rw [hend] at hge'
-        simp [navOf, navPrev, c1, c2, c5, hne, hge', hend, LB.updated, hnil]
-      · rw [c1]; exact h1
-      · rw [c2]; exact h2
-      · rw [c1]; exact Nat.le_refl _
-      · rw [c2]; exact h3
-      · rw [c5]; simp only []; omega
-    · have he : (s.histIdx == cfg.hist.length) = false := by simp [hend]
-      simp only [he, Bool.false_eq_true, if_false]
-      by_cases h0 : s.histIdx = 0
-      · simp [h0, navPrev, navOf]
-        exact ⟨h1, h2, h3, h4, by omega⟩
-      · have h0' : (s.histIdx == 0 && true) = false := by simp [h0]
-        simp only [h0', Bool.false_eq_true, if_false]
-        have hlt : s.histIdx - 1 < cfg.hist.length := by omega
-        simp only [hlt, if_true]
-        obtain ⟨e, hge⟩ : ∃ e, cfg.hist[s.histIdx - 1]? = some e := by
-          exact ⟨cfg.hist[s.histIdx - 1], by simp [hlt]⟩
-        simp only [histGet, hge, wp_bind, wp_setHistIdx]
-        refine wp_showEntry S U h1 (Nat.le_refl _) ?_
-        refine wp_refreshLine_np S U cfg hnp fun s' hc => ?_
-        obtain ⟨c1, c2, _, c4, c5, _, _⟩ := Ed.core_eq hc
-        refine ⟨?_, ⟨?_, ?_, ?_, ?_, ?_⟩, c4⟩
-        · simp [navOf, navPrev, c1, c2, c5, h0, hge, hend, LB.updated]
-        · rw [c1]; exact h1
-        · rw [c2]; exact h2
-        · rw [c1]; exact Nat.le_refl _
-        · rw [c2]; exact h4
-        · rw [c5]; simp only []; omega
-
-theorem C07_next_spec (S : Segmenter) (U : UData) (cfg : EdCfg) (hnp : cfg.hinterPanicAt = none) (s : Ed)
-    (h : NavOK cfg s) :
-    wp (editHistoryNext S U cfg false)
-      (fun _ s' => navOf s' = navNext cfg.hist (navOf s) ∧ NavOK cfg s' ∧ s'.ring = s.ring)
-      (fun _ _ => False) s := by
-  obtain ⟨h1, h2, h3, h4, h5⟩ := h
-  unfold editHistoryNext
-  simp only [wp_bind, wp_ite, wp_pure, wp_getHistIdx, wp_setHistIdx, Bool.false_eq_true, if_false, Bool.and_false]
-  by_cases hlen : cfg.hist.length = 0
-  · have : s.histIdx = 0 := by omega
-    simp [hlen, navNext, navOf, this]
-    exact ⟨h1, h2, h3, h4, by omega⟩
-  · have hl0 : (cfg.hist.length == 0) = false := by simp [hlen]
-    simp only [hl0, Bool.false_eq_true, if_false]
-    by_cases hend : s.histIdx = cfg.hist.length
-    · have he : (s.histIdx == cfg.hist.length) = true := by simp [hend]
-      simp only [he, if_true]
-      refine ⟨?_, ⟨h1, h2, h3, h4, h5⟩, trivial⟩
-      simp [navNext, navOf, hend]
-    · have he : (s.histIdx == cfg.hist.length) = false := by simp [hend]
-      simp only [he, Bool.false_eq_true, if_false]
-      by_cases hlt : s.histIdx + 1 < cfg.hist.length
-      · simp only [hlt, if_true]
-        obtain ⟨e, hge⟩ : ∃ e, cfg.hist[s.histIdx + 1]? = some e := by
-          exact ⟨cfg.hist[s.histIdx + 1], by simp [hlt]⟩
-        simp only [histGet, hge, wp_bind, wp_setHistIdx]
-        refine wp_showEntry S U h1 (Nat.le_refl _) ?_
-        refine wp_refreshLine_np S U cfg hnp fun s' hc => ?_
-        obtain ⟨c1, c2, _, c4, c5, _, _⟩ := Ed.core_eq hc
-        refine ⟨?_, ⟨?_, ?_, ?_, ?_, ?_⟩, c4⟩
-        · have : ¬ cfg.hist.length ≤ s.histIdx := by omega
-          simp [navOf, navNext, c1, c2, c5, hge, this, LB.updated]
-        · rw [c1]; exact h1
-        · rw [c2]; exact h2
-        · rw [c1]; exact Nat.le_refl _
-        · rw [c2]; exact h4
-        · rw [c5]; simp only []; omega
-      · simp only [hlt, if_false]
-        refine wp_restore S U h1 h4 ?_
-        refine wp_refreshLine_np S U cfg hnp fun s' hc => ?_
-        obtain ⟨c1, c2, _, c4, c5, _, _⟩ := Ed.core_eq hc
-        have hidx : s.histIdx + 1 = cfg.hist.length := by omega
-        have hnone : cfg.hist[s.histIdx + 1]? = none := by simp; omega
-        refine ⟨?_, ⟨?_, ?_, ?_, ?_, ?_⟩, c4⟩
-        · have : ¬ cfg.hist.length ≤ s.histIdx := by omega
-          simp [navOf, navNext, c1, c2, c5, hnone, this, LB.updated, hidx]
-        · rw [c1]; exact h1
-        · rw [c2]; exact h2
-        · rw [c1]; exact h4
-        · rw [c2]; exact h4
-        · rw [c5]; simp only []; omega
-
 /-- declarative "first entry" / "back to the line being typed" -/
 def navFirst (hist : List Text) (n : Nav) : Nav :=
   if n.idx = 0 then n
@@ -227,88 +389,78 @@ def navLast (hist : List Text) (n : Nav) : Nav :=
   if hist.length ≤ n.idx then n
   else { n with buf := n.savedBuf, pos := n.savedPos, idx := hist.length }
 
-theorem C07_first_spec (S : Segmenter) (U : UData) (cfg : EdCfg) (hnp : cfg.hinterPanicAt = none) (s : Ed)
-    (h : NavOK cfg s) :
-    wp (editHistory S U cfg true)
-      (fun _ s' => navOf s' = navFirst cfg.hist (navOf s) ∧ NavOK cfg s' ∧ s'.ring = s.ring)
-      (fun _ _ => False) s := by
-  obtain ⟨h1, h2, h3, h4, h5⟩ := h
-  unfold editHistory
-  simp only [wp_bind, wp_ite, wp_pure, wp_getHistIdx, wp_setHistIdx, if_true]
-  by_cases hlen : cfg.hist.length = 0
-  · have : s.histIdx = 0 := by omega
-    simp [hlen, navFirst, navOf, this]
-    exact ⟨h1, h2, h3, h4, by omega⟩
-  · have hl0 : (cfg.hist.length == 0) = false := by simp [hlen]
-    have hnil : cfg.hist ≠ [] := by intro h; simp [h] at hlen
-    obtain ⟨e, hge⟩ : ∃ e, cfg.hist[0]? = some e := ⟨cfg.hist[0]'(by omega), by simp⟩
-    simp only [hl0, Bool.false_eq_true, if_false]
-    by_cases hend : s.histIdx = cfg.hist.length
-    · have he : (s.histIdx == cfg.hist.length) = true := by simp [hend]
-      simp only [he, if_true]
-      refine wp_backup S U h2 h3 ?_
-      simp only [histGet, hge, wp_bind, wp_setHistIdx]
-      refine wp_showEntry S U h1 (Nat.le_refl _) ?_
-      refine wp_refreshLine_np S U cfg hnp fun s' hc => ?_
-      obtain ⟨c1, c2, _, c4, c5, _, _⟩ := Ed.core_eq hc
-      refine ⟨?_, ⟨?_, ?_, ?_, ?_, ?_⟩, c4⟩
-      · simp [navOf, navFirst, c1, c2, c5, hge, hend, LB.updated, hnil]
-      · rw [c1]; exact h1
-      · rw [c2]; exact h2
-      · rw [c1]; exact Nat.le_refl _
-      · rw [c2]; exact h3
-      · rw [c5]; simp only []; omega
-    · have he : (s.histIdx == cfg.hist.length) = false := by simp [hend]
-      simp only [he, Bool.false_eq_true, if_false]
-      by_cases h0 : s.histIdx = 0
-      · simp [h0, navFirst, navOf]
-        exact ⟨h1, h2, h3, h4, by omega⟩
-      · have h0' : (s.histIdx == 0 && true) = false := by simp [h0]
-        simp only [h0', Bool.false_eq_true, if_false]
-        simp only [histGet, hge, wp_bind, wp_setHistIdx]
-        refine wp_showEntry S U h1 (Nat.le_refl _) ?_
-        refine wp_refreshLine_np S U cfg hnp fun s' hc => ?_
-        obtain ⟨c1, c2, _, c4, c5, _, _⟩ := Ed.core_eq hc
-        refine ⟨?_, ⟨?_, ?_, ?_, ?_, ?_⟩, c4⟩
-        · simp [navOf, navFirst, c1, c2, c5, h0, hge, hend, LB.updated]
-        · rw [c1]; exact h1
-        · rw [c2]; exact h2
-        · rw [c1]; exact Nat.le_refl _
-        · rw [c2]; exact h4
-        · rw [c5]; simp only []; omega
 
-theorem C07_last_spec (S : Segmenter) (U : UData) (cfg : EdCfg) (hnp : cfg.hinterPanicAt = none) (s : Ed)
-    (h : NavOK cfg s) :
-    wp (editHistory S U cfg false)
-      (fun _ s' => navOf s' = navLast cfg.hist (navOf s) ∧ NavOK cfg s' ∧ s'.ring = s.ring)
-      (fun _ _ => False) s := by
-  obtain ⟨h1, h2, h3, h4, h5⟩ := h
-  unfold editHistory
-  simp only [wp_bind, wp_ite, wp_pure, wp_getHistIdx, wp_setHistIdx, Bool.false_eq_true, if_false, Bool.and_false]
-  by_cases hlen : cfg.hist.length = 0
-  · have : s.histIdx = 0 := by omega
-    simp [hlen, navLast, navOf, this]
-    exact ⟨h1, h2, h3, h4, by omega⟩
-  · have hl0 : (cfg.hist.length == 0) = false := by simp [hlen]
-    simp only [hl0, Bool.false_eq_true, if_false]
-    by_cases hend : s.histIdx = cfg.hist.length
-    · have he : (s.histIdx == cfg.hist.length) = true := by simp [hend]
-      simp only [he, if_true]
-      refine ⟨?_, ⟨h1, h2, h3, h4, h5⟩, trivial⟩
-      simp [navLast, navOf, hend]
-    · have he : (s.histIdx == cfg.hist.length) = false := by simp [hend]
-      simp only [he, Bool.false_eq_true, if_false]
-      refine wp_restore S U h1 h4 ?_
-      refine wp_refreshLine_np S U cfg hnp fun s' hc => ?_
-      obtain ⟨c1, c2, _, c4, c5, _, _⟩ := Ed.core_eq hc
-      refine ⟨?_, ⟨?_, ?_, ?_, ?_, ?_⟩, c4⟩
-      · have : ¬ cfg.hist.length ≤ s.histIdx := by omega
-        simp [navOf, navLast, c1, c2, c5, this, LB.updated]
-      · rw [c1]; exact h1
-      · rw [c2]; exact h2
-      · rw [c1]; exact h4
-      · rw [c2]; exact h4
-      · rw [c5]; exact Nat.le_refl _
+/-! ### the default back end: the index of an entry is its position -/
+
+/-- memory / file history as a store -/
+def listStore (hist : List Text) : HStore := ⟨hist.length, fun i _ => (hist[i]?).map (fun e => (i, e))⟩
+
+theorem C07_storeOf_none (cfg : EdCfg) (h : cfg.histRows = none) : storeOf cfg = listStore cfg.hist := by
+  unfold storeOf listStore histLen
+  rw [h]
+  congr 1
+  funext i d
+  unfold histGetDir
+  rw [h]
+
+theorem C07_storeOK_list (hist : List Text) : StoreOK (listStore hist) := by
+  intro i d j e h
+  simp only [listStore] at h ⊢
+  cases hg : hist[i]? with
+  | none => rw [hg] at h; cases h
+  | some x =>
+    rw [hg] at h
+    cases h
+    exact (List.getElem?_eq_some_iff.mp hg).1
+
+theorem C07_navPrevS_list (hist : List Text) (n : Nav) (hi : n.idx ≤ hist.length) :
+    navPrevS (listStore hist) n = navPrev hist n := by
+  unfold navPrevS navPrev navSave listStore
+  by_cases hl : hist.length = 0
+  · have : n.idx = 0 := by omega
+    simp [hl, this]
+  · by_cases h0 : n.idx = 0
+    · simp [hl, h0]
+    · have hlt : n.idx - 1 < hist.length := by omega
+      have hg : hist[n.idx - 1]? = some hist[n.idx - 1] := by simp [hlt]
+      simp only [hl, h0, hlt, if_true, if_false, hg, Option.map_some]
+      by_cases he : n.idx = hist.length <;> simp [he]
+
+theorem C07_navNextS_list (hist : List Text) (n : Nav) (hi : n.idx ≤ hist.length) :
+    navNextS (listStore hist) n = navNext hist n := by
+  unfold navNextS navNext listStore
+  by_cases he : n.idx = hist.length
+  · simp [he]
+  · have hlt : ¬ hist.length ≤ n.idx := by omega
+    have hl : hist.length ≠ 0 := by omega
+    by_cases h1 : n.idx + 1 < hist.length
+    · have hg : hist[n.idx + 1]? = some hist[n.idx + 1] := by simp [h1]
+      simp [hl, he, hlt, h1, hg]
+    · have hg : hist[n.idx + 1]? = none := by simp; omega
+      have : n.idx + 1 = hist.length := by omega
+      simp [hl, he, hlt, h1, hg, this]
+
+theorem C07_navFirstS_list (hist : List Text) (n : Nav) (hi : n.idx ≤ hist.length) :
+    navFirstS (listStore hist) n = navFirst hist n := by
+  unfold navFirstS navFirst navSave listStore
+  by_cases hl : hist.length = 0
+  · have : n.idx = 0 := by omega
+    simp [hl, this]
+  · by_cases h0 : n.idx = 0
+    · simp [hl, h0]
+    · have hg : hist[0]? = some hist[0] := by simp
+      have h0' : ¬ 0 = n.idx := fun h => h0 h.symm
+      simp only [hl, h0, if_false, hg, Option.map_some, h0']
+      by_cases he : n.idx = hist.length <;> simp [he]
+
+theorem C07_navLastS_list (hist : List Text) (n : Nav) (hi : n.idx ≤ hist.length) :
+    navLastS (listStore hist) n = navLast hist n := by
+  unfold navLastS navLast listStore
+  by_cases he : n.idx = hist.length
+  · simp [he]
+  · have hlt : ¬ hist.length ≤ n.idx := by omega
+    have hl : hist.length ≠ 0 := by omega
+    simp [hl, he, hlt]
 
 /-- `backup` touches the saved line only (whatever it does to it) -/
 theorem C07_wp_backup_any (S : Segmenter) (U : UData) {s : Ed} {Q : Unit → Ed → Prop} {E : Rl.Outcome → Ed → Prop}
@@ -319,16 +471,19 @@ theorem C07_wp_backup_any (S : Segmenter) (U : UData) {s : Ed} {Q : Unit → Ed 
   | ok r => obtain ⟨_, sv, _⟩ := r; exact hq sv
 
 theorem C07_model_prev : C07_model_prev_statement := by
-  intro S U cfg s s' e h0 h5 hge h1 hrun
+  intro S U cfg s s' e hrows h0 h5 hge h1 hrun
+  have hL : histLen cfg = cfg.hist.length := by unfold histLen; rw [hrows]
+  have hG : histGetDir cfg (s.histIdx - 1) Dir.reverse = some (s.histIdx - 1, e) := by
+    unfold histGetDir; rw [hrows]; simp only [hge, Option.map_some]
   have hw : wp (editHistoryNext S U cfg true)
       (fun _ s' => s'.line.buf = e ∧ s'.line.pos = blen e ∧ s'.histIdx = s.histIdx - 1) (fun _ _ => True) s := by
     unfold editHistoryNext
-    simp only [wp_bind, wp_ite, wp_pure, wp_getHistIdx, wp_setHistIdx, if_true]
+    simp only [wp_bind, wp_ite, wp_pure, wp_getHistIdx, wp_setHistIdx, if_true, hL]
     have hlen : cfg.hist.length ≠ 0 := by omega
     have hl0 : (cfg.hist.length == 0) = false := by simp [hlen]
     have hlt : s.histIdx - 1 < cfg.hist.length := by omega
     have h0' : (s.histIdx == 0 && true) = false := by simp; omega
-    simp only [hl0, Bool.false_eq_true, if_false, hlt, if_true, h0', histGet, hge, wp_bind, wp_setHistIdx]
+    simp only [hl0, Bool.false_eq_true, if_false, hlt, if_true, h0', hG, wp_bind, wp_setHistIdx]
     have tail : ∀ s1 : Ed, s1.line = s.line →
         wp (showEntry S U e (blen e))
           (fun _ s' => wp (refreshLine S U cfg)
@@ -400,40 +555,91 @@ theorem C07_returns_of_wp {m : EM Unit} {s : Ed} {Q : Unit → Ed → Prop}
   obtain ⟨a, s', h1, h2⟩ := returns_iff_wp.mpr h
   exact ⟨s', h1, h2⟩
 
-/-- **Up / C-p / k**: from a navigable state (and with helpers that do not panic:
-    `hinterPanicAt = none`, here and in the three theorems below) the model never panics and does exactly the declarative
+/-- **Recall over any back end** (default or SQLite; helpers that do not panic): from a navigable state
+    `editHistoryNext` / `editHistory` never panic and do exactly the declarative step of the store
+    machine (`navPrevS` … `navLastS` over `History::len` / `History::get`): Up shows the nearest stored
+    entry at or before `idx - 1` verbatim with the cursor at its end and takes ITS index; Down the
+    nearest at or after `idx + 1`, or — arriving at `len` — exactly the saved text and cursor. -/
+theorem C07_prev_refines_store (S : Segmenter) (U : UData) (cfg : EdCfg) (hnp : cfg.hinterPanicAt = none)
+    (hst : StoreOK (storeOf cfg)) (s : Ed) (h : NavOK cfg s) :
+    ∃ s', editHistoryNext S U cfg true s = .ok ((), s') ∧
+      navOf s' = navPrevS (storeOf cfg) (navOf s) ∧ NavOK cfg s' :=
+  let ⟨s', h1, h2, h3, _⟩ := C07_returns_of_wp (C07_prev_specS S U cfg hnp hst s h)
+  ⟨s', h1, h2, h3⟩
+
+theorem C07_next_refines_store (S : Segmenter) (U : UData) (cfg : EdCfg) (hnp : cfg.hinterPanicAt = none)
+    (hst : StoreOK (storeOf cfg)) (s : Ed) (h : NavOK cfg s) :
+    ∃ s', editHistoryNext S U cfg false s = .ok ((), s') ∧
+      navOf s' = navNextS (storeOf cfg) (navOf s) ∧ NavOK cfg s' :=
+  let ⟨s', h1, h2, h3, _⟩ := C07_returns_of_wp (C07_next_specS S U cfg hnp hst s h)
+  ⟨s', h1, h2, h3⟩
+
+theorem C07_first_refines_store (S : Segmenter) (U : UData) (cfg : EdCfg) (hnp : cfg.hinterPanicAt = none)
+    (hst : StoreOK (storeOf cfg)) (s : Ed) (h : NavOK cfg s) :
+    ∃ s', editHistory S U cfg true s = .ok ((), s') ∧
+      navOf s' = navFirstS (storeOf cfg) (navOf s) ∧ NavOK cfg s' :=
+  let ⟨s', h1, h2, h3, _⟩ := C07_returns_of_wp (C07_first_specS S U cfg hnp hst s h)
+  ⟨s', h1, h2, h3⟩
+
+theorem C07_last_refines_store (S : Segmenter) (U : UData) (cfg : EdCfg) (hnp : cfg.hinterPanicAt = none)
+    (s : Ed) (h : NavOK cfg s) :
+    ∃ s', editHistory S U cfg false s = .ok ((), s') ∧
+      navOf s' = navLastS (storeOf cfg) (navOf s) ∧ NavOK cfg s' :=
+  let ⟨s', h1, h2, h3, _⟩ := C07_returns_of_wp (C07_last_specS S U cfg hnp s h)
+  ⟨s', h1, h2, h3⟩
+
+/-- the index bound of `NavOK` read over the default back end -/
+theorem C07_navOK_idx_none {cfg : EdCfg} {s : Ed} (hrows : cfg.histRows = none) (h : NavOK cfg s) :
+    (navOf s).idx ≤ cfg.hist.length := by
+  have := h.idx
+  unfold histLen at this
+  rw [hrows] at this
+  exact this
+
+/-- **Up / C-p / k**, default back end (`histRows = none`; helpers that do not panic, here and in the
+    three theorems below): the model never panics and does exactly the declarative
     step: shows `hist[i-1]` verbatim with the cursor at its end, saves (text, cursor) iff it leaves the
     in-progress line (`idx = len`), stops at the oldest entry. -/
-theorem C07_prev_refines (S : Segmenter) (U : UData) (cfg : EdCfg) (hnp : cfg.hinterPanicAt = none) (s : Ed)
-    (h : NavOK cfg s) :
-    ∃ s', editHistoryNext S U cfg true s = .ok ((), s') ∧ navOf s' = navPrev cfg.hist (navOf s) ∧ NavOK cfg s' :=
-  let ⟨s', h1, h2, h3, _⟩ := C07_returns_of_wp (C07_prev_spec S U cfg hnp s h)
-  ⟨s', h1, h2, h3⟩
+theorem C07_prev_refines (S : Segmenter) (U : UData) (cfg : EdCfg) (hnp : cfg.hinterPanicAt = none)
+    (hrows : cfg.histRows = none) (s : Ed) (h : NavOK cfg s) :
+    ∃ s', editHistoryNext S U cfg true s = .ok ((), s') ∧ navOf s' = navPrev cfg.hist (navOf s) ∧ NavOK cfg s' := by
+  have hst : StoreOK (storeOf cfg) := by rw [C07_storeOf_none cfg hrows]; exact C07_storeOK_list _
+  obtain ⟨s', h1, h2, h3⟩ := C07_prev_refines_store S U cfg hnp hst s h
+  refine ⟨s', h1, ?_, h3⟩
+  rw [h2, C07_storeOf_none cfg hrows, C07_navPrevS_list _ _ (C07_navOK_idx_none hrows h)]
 
-/-- **Down / C-n / j**: shows `hist[i+1]`, or — arriving at `len` — restores exactly the saved text
-    and cursor; stops at the in-progress line. -/
-theorem C07_next_refines (S : Segmenter) (U : UData) (cfg : EdCfg) (hnp : cfg.hinterPanicAt = none) (s : Ed)
-    (h : NavOK cfg s) :
-    ∃ s', editHistoryNext S U cfg false s = .ok ((), s') ∧ navOf s' = navNext cfg.hist (navOf s) ∧ NavOK cfg s' :=
-  let ⟨s', h1, h2, h3, _⟩ := C07_returns_of_wp (C07_next_spec S U cfg hnp s h)
-  ⟨s', h1, h2, h3⟩
+/-- **Down / C-n / j**, default back end: shows `hist[i+1]`, or — arriving at `len` — restores exactly
+    the saved text and cursor; stops at the in-progress line. -/
+theorem C07_next_refines (S : Segmenter) (U : UData) (cfg : EdCfg) (hnp : cfg.hinterPanicAt = none)
+    (hrows : cfg.histRows = none) (s : Ed) (h : NavOK cfg s) :
+    ∃ s', editHistoryNext S U cfg false s = .ok ((), s') ∧ navOf s' = navNext cfg.hist (navOf s) ∧ NavOK cfg s' := by
+  have hst : StoreOK (storeOf cfg) := by rw [C07_storeOf_none cfg hrows]; exact C07_storeOK_list _
+  obtain ⟨s', h1, h2, h3⟩ := C07_next_refines_store S U cfg hnp hst s h
+  refine ⟨s', h1, ?_, h3⟩
+  rw [h2, C07_storeOf_none cfg hrows, C07_navNextS_list _ _ (C07_navOK_idx_none hrows h)]
 
-/-- **M-<** behaves like `idx` Ups (on line, cursor, index and saved line). -/
-theorem C07_first_is_iterated_prev (S : Segmenter) (U : UData) (cfg : EdCfg) (hnp : cfg.hinterPanicAt = none) (s : Ed)
-    (h : NavOK cfg s) :
+/-- **M-<** behaves like `idx` Ups (on line, cursor, index and saved line), default back end. -/
+theorem C07_first_is_iterated_prev (S : Segmenter) (U : UData) (cfg : EdCfg) (hnp : cfg.hinterPanicAt = none)
+    (hrows : cfg.histRows = none) (s : Ed) (h : NavOK cfg s) :
     ∃ s', editHistory S U cfg true s = .ok ((), s') ∧
       navOf s' = navIter (navPrev cfg.hist) s.histIdx (navOf s) ∧ NavOK cfg s' := by
-  obtain ⟨s', h1, h2, h3, _⟩ := C07_returns_of_wp (C07_first_spec S U cfg hnp s h)
-  exact ⟨s', h1, by rw [h2, C07_navPrev_iterate cfg.hist s.histIdx (navOf s) rfl h.idx], h3⟩
+  have hst : StoreOK (storeOf cfg) := by rw [C07_storeOf_none cfg hrows]; exact C07_storeOK_list _
+  obtain ⟨s', h1, h2, h3⟩ := C07_first_refines_store S U cfg hnp hst s h
+  refine ⟨s', h1, ?_, h3⟩
+  have hi := C07_navOK_idx_none hrows h
+  rw [h2, C07_storeOf_none cfg hrows, C07_navFirstS_list _ _ hi,
+    C07_navPrev_iterate cfg.hist s.histIdx (navOf s) rfl hi]
 
-/-- **M->** behaves like `len - idx` Downs. -/
-theorem C07_last_is_iterated_next (S : Segmenter) (U : UData) (cfg : EdCfg) (hnp : cfg.hinterPanicAt = none) (s : Ed)
-    (h : NavOK cfg s) :
+/-- **M->** behaves like `len - idx` Downs, default back end. -/
+theorem C07_last_is_iterated_next (S : Segmenter) (U : UData) (cfg : EdCfg) (hnp : cfg.hinterPanicAt = none)
+    (hrows : cfg.histRows = none) (s : Ed) (h : NavOK cfg s) :
     ∃ s', editHistory S U cfg false s = .ok ((), s') ∧
       navOf s' = navIter (navNext cfg.hist) (cfg.hist.length - s.histIdx) (navOf s) ∧ NavOK cfg s' := by
-  obtain ⟨s', h1, h2, h3, _⟩ := C07_returns_of_wp (C07_last_spec S U cfg hnp s h)
+  obtain ⟨s', h1, h2, h3⟩ := C07_last_refines_store S U cfg hnp s h
   refine ⟨s', h1, ?_, h3⟩
-  rw [h2, C07_navNext_iterate cfg.hist _ (navOf s) (by have := h.idx; simp only [navOf]; omega)]
+  have hi := C07_navOK_idx_none hrows h
+  rw [h2, C07_storeOf_none cfg hrows, C07_navLastS_list _ _ hi,
+    C07_navNext_iterate cfg.hist _ (navOf s) (by simp only [navOf] at hi ⊢; omega)]
 
 /-- the saved line is written only when leaving the in-progress position, with the text and cursor
     of that moment; moving down never writes it -/
@@ -544,3 +750,78 @@ example :
     let n0 : Nav := ⟨['x', 'y'], 1, 3, [], 0⟩
     let n := [NavOp.prev, .prev, .next, .next].foldl (navApply hist) n0
     (navPrev hist (navPrev hist n0)).buf = ['b'] ∧ n.buf = ['x', 'y'] ∧ n.pos = 1 ∧ n.idx = 3 := by decide
+
+/-! ### the SQLite back end: indices are row ids minus one, with holes -/
+
+/-- the row store the driver computes from the `add` / `set_max_len` sequence (C20 model): one index
+    per entry, strictly increasing, all below `len`, and `len` is the last index plus one -/
+structure RowsWF (r : RowStore) (hist : List Text) : Prop where
+  len_eq : r.idx.length = hist.length
+  sorted : r.idx.Pairwise (· < ·)
+  bound : ∀ i ∈ r.idx, i < r.len
+  tight : ∀ k, r.idx.getLast? = some k → r.len = k + 1
+
+/-- every answer of `SQLiteHistory::get` is the index of a stored row, hence below `len()` -/
+theorem C07_storeOK_rows (cfg : EdCfg) (r : RowStore) (hr : cfg.histRows = some r)
+    (hb : ∀ i ∈ r.idx, i < r.len) : StoreOK (storeOf cfg) := by
+  intro i d j e h
+  simp only [storeOf, histLen, histGetDir, hr] at h ⊢
+  split at h
+  · cases h
+  · have hmem : (j, e) ∈ r.idx.zip cfg.hist := by
+      cases d with
+      | forward => exact List.mem_of_find?_eq_some h
+      | reverse =>
+        have := List.mem_of_getLast? h
+        exact (List.mem_filter.mp this).1
+    exact hb j (List.of_mem_zip hmem).1
+
+/-- position of an index among the stored rows: the number of rows below it (`len` ↦ the number of
+    entries, the index of the k-th row ↦ k) -/
+def posOf (r : RowStore) (i : Nat) : Nat := (r.idx.filter (· < i)).length
+
+/-- the user's view of a navigation state: positions instead of row indices -/
+def absNav (r : RowStore) (n : Nav) : Nav := { n with idx := posOf r n.idx }
+
+/-- the indices the recall commands can be at: `len` (the line being typed) or a stored row -/
+def ValidIdx (r : RowStore) (i : Nat) : Prop := i = r.len ∨ i ∈ r.idx
+
+/-- **Holes are invisible** (stated; the refinement to the store machine is proved above, the
+    simulation of the position machine by the store machine over a well-formed non-empty row store is
+    checked on concrete stores below and by target `ed07s`, not yet proved in general): seen through
+    `absNav`, each step of the store machine over the rows is the step of the default machine over
+    the entries in row order, and it stays on a valid index. -/
+def C07_rows_simulation_statement : Prop :=
+  ∀ (cfg : EdCfg) (r : RowStore) (n : Nav),
+    cfg.histRows = some r → RowsWF r cfg.hist → r.idx ≠ [] → ValidIdx r n.idx →
+    (absNav r (navPrevS (storeOf cfg) n) = navPrev cfg.hist (absNav r n) ∧
+      ValidIdx r (navPrevS (storeOf cfg) n).idx) ∧
+    (absNav r (navNextS (storeOf cfg) n) = navNext cfg.hist (absNav r n) ∧
+      ValidIdx r (navNextS (storeOf cfg) n).idx) ∧
+    (absNav r (navFirstS (storeOf cfg) n) = navFirst cfg.hist (absNav r n) ∧
+      ValidIdx r (navFirstS (storeOf cfg) n).idx) ∧
+    (absNav r (navLastS (storeOf cfg) n) = navLast cfg.hist (absNav r n) ∧
+      ValidIdx r (navLastS (storeOf cfg) n).idx)
+
+/-- the store of the seeded-defect example: add one, two, three, two → row ids 1, 3, 4 -/
+def C07_exCfg : EdCfg :=
+  { vi := false, hist := [['1'], ['3'], ['2']], histRows := some { idx := [0, 2, 3], len := 4 } }
+
+/-- Up Up Up from the line being typed crosses the hole: it shows "2", "3", "1" (row indices 3, 2, 0),
+    a fourth Up stays; seen through positions it is the walk 3 → 2 → 1 → 0 of the default machine. -/
+example :
+    let H := storeOf C07_exCfg
+    let n0 : Nav := ⟨['x'], 1, 4, [], 0⟩
+    let n1 := navPrevS H n0
+    let n2 := navPrevS H n1
+    let n3 := navPrevS H n2
+    (n1.buf, n1.idx) = (['2'], 3) ∧ (n2.buf, n2.idx) = (['3'], 2) ∧ (n3.buf, n3.idx) = (['1'], 0) ∧
+    navPrevS H n3 = n3 ∧
+    absNav ⟨[0, 2, 3], 4⟩ n3 = navPrev C07_exCfg.hist (absNav ⟨[0, 2, 3], 4⟩ n2) ∧
+    (navNextS H n3).idx = 2 ∧ navNextS H (navNextS H (navNextS H n3)) = { n0 with savedBuf := ['x'], savedPos := 1 } := by
+  decide
+
+/-- the seeded defect (`get(idx, Forward)` for Up) as a store: asking forward at index 1 answers
+    row 2, the entry already shown — Up from "3" would stay on "3" -/
+example : histGetDir C07_exCfg 1 .forward = some (2, ['3']) ∧ histGetDir C07_exCfg 1 .reverse = some (0, ['1']) := by
+  decide
